@@ -637,6 +637,8 @@ def concretize(x, model):
 # ------------------------------------------------------------------------------- verifier
 
 def source_info(fn):
+    if type(fn).__name__ == "MissingFunction":
+        raise Inapplicable(f"{fn.where}.{fn.__name__} no longer exists under this name")
     fn = getattr(fn, "__func__", fn)
     node = function_ast(fn)
     tree, index, src = module_ast(fn.__code__.co_filename)
